@@ -124,11 +124,15 @@ def parseUri (t : String) : Option (Bytes × Bytes) :=
   | _ => none
 
 def parseFrames (toks : List String) : List Frame :=
-  let descs : List Nat := match toks.find? (fun t => t.startsWith "L=") with
-    | some t => ((t.drop 2).toString.splitOn ",").filterMap (·.toNat?)
+  let descs : List (Nat × Nat) := match toks.find? (fun t => t.startsWith "L=") with
+    | some t => ((t.drop 2).toString.splitOn ",").filterMap fun p =>
+        match p.splitOn "/" with
+        | [a, b] => do let a ← a.toNat?; let b ← b.toNat?; pure (a, b)
+        | _ => none
     | none => []
   let hexes := toks.filter (fun t => !(t.startsWith "L=") && t != "-")
-  (hexes.zipIdx).map fun (h, i) => { bytes := hexBytes h.toList, desc := descs.getD i 0 }
+  (hexes.zipIdx).map fun (h, i) =>
+    { bytes := hexBytes h.toList, descFirst := (descs.getD i (0, 0)).1, descRest := (descs.getD i (0, 0)).2 }
 
 partial def loop (h : IO.FS.Stream) (out : IO.FS.Stream) (d : DSt) : IO Unit := do
   let line ← h.getLine
